@@ -145,7 +145,8 @@ mtbl_iter *us_range(void *c, const uint8_t *k0, size_t l0, const uint8_t *k1, si
 }
 } // namespace
 
-mtbl_source *usource_make(USource *s) { return mtbl_source_init(us_iter, us_get, us_prefix, us_range, nullptr, s); }
+static void us_free(void *c) { ((USource *)c)->freed++; }
+mtbl_source *usource_make(USource *s) { return mtbl_source_init(us_iter, us_get, us_prefix, us_range, us_free, s); }
 
 // small direct writer for source tables
 bool write_table(const std::string &path, const mfmt::Entries &e, int comp, size_t rint, size_t bsize)
@@ -325,7 +326,7 @@ void mergeworld_destroy(MergeWorld &w)
 {
 	for (auto &s : w.srcs) {
 		if (s.reader) mtbl_reader_destroy(&s.reader);
-		if (s.own_source && s.src) { mtbl_source *m = const_cast<mtbl_source *>(s.src); mtbl_source_destroy(&m); }
+		if (s.own_source && s.src) { mtbl_source *m = const_cast<mtbl_source *>(s.src); mtbl_source_destroy(&m); if (s.us.freed != 1) w.free_cb_wrong++; }
 		s.src = nullptr;
 	}
 }
@@ -508,6 +509,7 @@ static RunResult exec_merge(const Plan &p)
 	if (inner) mtbl_merger_destroy(&inner);
 	for (auto &s : w.srcs) if (s.user && s.us.live_iters != 0) res.fail("MODEL", "ITER-LEAK", "merger left " + std::to_string(s.us.live_iters) + " source iterators alive after its iterators were destroyed");
 	mergeworld_destroy(w);
+	if (w.free_cb_wrong) res.fail("LEAK", "SOURCE-free-callback", "mtbl_source_destroy did not run the free callback of a user-defined source exactly once");
 	if (p.prop == "C04") res.nontrivial = nsrc >= 2 && w.shared_keys >= 1;
 	if (w.shared_keys) res.probes["keys-shared-by-sources"] += w.shared_keys;
 	return res;
